@@ -147,6 +147,14 @@ func generate(tier string, search bool, rng *lib.Rand) []Case {
 	odd := map[string]string{"with space": hx("1"), "ünï": hx("2"), ".hidden": hx("3"), "a=b,c:d": hx("4"), "-": ""}
 	cs = append(cs, mk("oddnames", "b", write(odd), crash(p[1], 5), write(odd), write(p[2])))
 
+	// (K) Options.Target given as a relative path (working directory = sandbox root)
+	for i, b := range []string{"", "a", "x/y"} {
+		f := pick(p, off+i)
+		c := mk("reltarget", b, write(f), write(pick(p, off+i+1)), crash(pick(p, off+i+2), 4+i), write(pick(p, off+i+3)))
+		c.RelTgt = true
+		cs = append(cs, c)
+	}
+
 	// (H) raw file-system operations: the model's POSIX operations against the real os.* calls
 	nraw := 60
 	if tier == "thorough" {
